@@ -3,12 +3,40 @@ package mc
 import (
 	"fmt"
 	"strings"
+
+	"github.com/element-of-surprise/coercion/workflow"
 )
 
 // C12: a plan executes at most once; API robustness.
 type monC12 struct{}
 
+// finishedPlanUntouched: "rejected without side effects" for a plan that has finished - once the stored plan reads
+// Completed or Failed (its own record is the last write of an execution) no later API call, in particular no rejected
+// Start, may change anything in it.
+func finishedPlanUntouched(x *Exec) {
+	for pi := range x.Sc.Plans {
+		p, err := x.ReadPlan(pi)
+		if err != nil || p == nil || p.State == nil {
+			continue
+		}
+		key := fmt.Sprintf("c12:final:%d", pi)
+		now := dumpOf(p)
+		if was, ok := x.Mem[key].(string); ok {
+			if was != now {
+				x.Report(&Violation{Property: "C12", Rule: "finished-plan-changed-by-later-call", Signature: "side-effect-on-finished-plan",
+					Msg: fmt.Sprintf("P%d was stored as finished and changed afterwards: %s", pi, firstDiff2(was, now))})
+				x.Mem[key] = now
+			}
+			continue
+		}
+		if p.State.Status == workflow.Completed || p.State.Status == workflow.Failed {
+			x.Mem[key] = now
+		}
+	}
+}
+
 func (monC12) AtState(x *Exec) {
+	finishedPlanUntouched(x)
 	from, to := newEvents(x, "c12")
 	if from == to {
 		return
@@ -239,6 +267,12 @@ func FamilyAPI(tier string) []*Scenario {
 	for _, name := range sortedKeys(early) {
 		out = append(out, &Scenario{Family: "F-api", Name: "api-restart-after-" + name, Plans: []PlanSpec{early[name]}, MaxSubmitSec: 100, MaxTicks: 6, PostWaitTicks: 1,
 			Threads: [][]APICall{{{Op: "start", Plan: 0}, {Op: "wait", Plan: 0}, {Op: "start", Plan: 0}, {Op: "wait", Plan: 0}, {Op: "start", Plan: 0}}}})
+	}
+	// a finished plan whose submission has meanwhile grown older than the maximum: Start is refused for two reasons at
+	// once and must still leave the stored result alone
+	for _, name := range sortedKeys(early) {
+		out = append(out, &Scenario{Family: "F-api", Name: "api-stale-restart-after-" + name, Plans: []PlanSpec{early[name]}, MaxSubmitSec: 10, MaxTicks: 8, PostWaitTicks: 1,
+			Threads: [][]APICall{{{Op: "start", Plan: 0}, {Op: "wait", Plan: 0}, {Op: "sleep", Plan: 0, Arg: 11}, {Op: "start", Plan: 0}, {Op: "plan", Plan: 0}, {Op: "wait", Plan: 0}}}})
 	}
 	// a consumer that leaves the Status loop early while the plan is still Running (time passes by default while the
 	// sequence action executes, so the poll falls inside the execution)
